@@ -78,6 +78,18 @@ def cases(ctx):
             span_ = float(np.ptp(np.concatenate([pos, neg]))) or 1.0
             arr = pos if rng.random() < 0.5 else neg
             arr[int(rng.integers(0, len(arr)))] = float(rng.choice([-1.0, 1.0])) * span_ * float(rng.choice([1e4, 1e5, 1e6]))
+        if i % 19 == 8:
+            # single/half-precision scores packed on adjacent representable values (a saturating float16/float32 model output): tie-free, but an
+            # interpolated threshold has no room between two scores in that precision
+            dt_ = np.float32 if rng.random() < 0.6 else np.float16
+            n_ = int(rng.integers(6, 40))
+            base_ = dt_(rng.choice([1.0, 0.5, 2.0]))
+            lad_ = [base_]
+            for _ in range(n_ - 1):
+                lad_.append(np.nextafter(lad_[-1], dt_(np.inf)))
+            lad_ = np.array(lad_, dtype=dt_)[rng.permutation(n_)]
+            k_ = int(rng.integers(1, n_))
+            pos, neg, mode = lad_[:k_], lad_[k_:], "lowprec-adjacent"
         ep, en = gen.easy(rng)
         if mode == "manyeasy":  # a handful of hard scores beside up to billions of easy ones: one sample is 1e-10 of the rate scale
             ep, en = (int(x) for x in rng.choice([0, 10 ** 8, 10 ** 9, 3 * 10 ** 9, 10 ** 10, 10 ** 11, 10 ** 12, 10 ** 15, 10 ** 16, 10 ** 17], 2))
